@@ -2477,26 +2477,26 @@ MANIFEST = {
     "design_ref": "DESIGN.md 4/C06",
 }
 FINDINGS = [
-    {"status": "fixed", "key": "z3:nat-binders-not-relativised", "commit": "ad9049a",
+    {"status": "fixed", "key": "z3:nat-binders-not-relativised", "commit": "756a83a",
      "what": "z3wrapper.solve(~(!x::nat. 0 <= x)) and solve(?x::nat. x < 0) returned True: nat binders ranged over all integers"},
-    {"status": "fixed", "key": "z3:of_nat-of-bound-variable", "commit": "257ce31",
+    {"status": "fixed", "key": "z3:of_nat-of-bound-variable", "commit": "2ce970b",
      "what": "solve(?x::nat. ~(of_nat x = (of_nat (if x = x then x else 0)::real))) returned True: of_nat of a bound variable became a free real constant"},
-    {"status": "fixed", "key": "z3:function-equation-is-False", "commit": "d7f7591",
+    {"status": "fixed", "key": "z3:function-equation-is-False", "commit": "c640097",
      "what": "solve(f = g --> false) and solve(~(f = g)) returned True for f, g :: nat => nat: == on Z3 function declarations is syntactic"},
-    {"status": "fixed", "key": "z3:same-name-two-types", "commit": "9c52983",
+    {"status": "fixed", "key": "z3:same-name-two-types", "commit": "8dd34c4",
      "what": "solve((x::nat) = 0 --> (x::int) = 0) returned True: both variables became the Z3 constant x of sort Int"},
-    {"status": "fixed", "key": "sympy:structural-disequality", "commit": "8b2092f",
+    {"status": "fixed", "key": "sympy:structural-disequality", "commit": "342f356",
      "what": "sympywrapper.solve_goal(~((x + 1) * (x + 1) = x * x + 2 * x + 1)) returned True: lhs != rhs is syntactic"},
-    {"status": "fixed", "key": "sympy:nat-subtraction", "commit": "bcc78a1",
+    {"status": "fixed", "key": "sympy:nat-subtraction", "commit": "8a88b26",
      "what": "solve_goal(~((2::nat) - 3 = 0)) and solve_goal((3::nat) - 5 < 0) returned True: nat subtraction not truncated"},
-    {"status": "fixed", "key": "sympy:division-by-zero", "commit": "fb9ee5d",
+    {"status": "fixed", "key": "sympy:division-by-zero", "commit": "23b5fb8",
      "what": "solve_goal(x / x = 1), solve_with_interval(x / x >= 1, x Mem [0,1]), solve_with_interval(~(1 / x = 0), x Mem [-1,1]) returned True: SymPy's x/x = 1 and 1/0 = zoo against HOL's x / 0 = 0"},
-    {"status": "fixed", "key": "z3:real-literals-as-python-numbers", "commit": "928e63b",
+    {"status": "fixed", "key": "z3:real-literals-as-python-numbers", "commit": "4f07e47",
      "what": "solve((if p then (1::real) else 3) / 2 = (if p then 0 else 1)) returned True (integer division on sort Int) and solve(~((2::real) / 6 = 1 / 3)) returned True (Python float division)"},
-    {"status": "fixed", "key": "z3:uminus-on-nat", "commit": "6c96565",
+    {"status": "fixed", "key": "z3:uminus-on-nat", "commit": "757b6c2",
      "what": "solve(x > 0 --> -x < 0) returned True for x :: nat: uminus (declared at every type, unspecified on nat) was translated as integer negation"},
-    {"status": "fixed", "key": "sympy:foreign-variable", "commit": "6fece0e",
+    {"status": "fixed", "key": "sympy:foreign-variable", "commit": "f1e2c0d",
      "what": "with x Mem real_closed_interval 0 1 the sympy step proved y / y > 0, ~(1 / y = 0), 1 / y * y >= 1 (false at y = 0): divisors were checked for zeros in x only"},
-    {"status": "fixed", "key": "sympy:sqrt-log-domains", "commit": "1e0e66f",
+    {"status": "fixed", "key": "sympy:sqrt-log-domains", "commit": "797d97e",
      "what": "solve_goal proved sqrt(-1) * sqrt(-1) = -1, sqrt x * sqrt x = x, exp(log x) = x, x ^ (1/2) * x ^ (1/2) = x: SymPy's complex sqrt/log against the library's total real functions"},
 ]
